@@ -195,13 +195,23 @@ func (p *clientStreamProcessorFMP4) processSegment(ctx context.Context, seg *seg
 			dts := leadingTimeConvFMP4(p.client).convert(int64(partTrack.BaseTime), trackProc.track.track.ClockRate)
 			ntp := leadingTimeConvFMP4(p.client).getNTP(ctx, dts, trackProc.track.track.ClockRate)
 
-			err := trackProc.push(ctx, &procEntryFMP4{
+			entry := &procEntryFMP4{
 				partTrack: partTrack,
 				dts:       dts,
 				ntp:       ntp,
-			})
-			if err != nil {
-				return err
+			}
+
+			// while pushing, collect the tokens of part tracks that have been processed,
+			// otherwise track processors get stuck as soon as chPartTrackProcessed is full
+			for pushed := false; !pushed; {
+				select {
+				case trackProc.queue <- entry:
+					pushed = true
+				case <-p.chPartTrackProcessed:
+					partTrackCount--
+				case <-ctx.Done():
+					return fmt.Errorf("terminated")
+				}
 			}
 
 			partTrackCount++
